@@ -938,7 +938,7 @@ fn main() {
     driver::main(CheckDef {
         prop: "C14",
         level: "model_checking",
-        rule: "every sequence of the stated depth (first operation = each of the 11 constructions) over: construct {borrowed, From<&T>, Default, a borrowed proper prefix of the static (same address, shorter; for str through std Cow::Borrowed), owned with (len,cap) in (0,0),(0,8),(3,3),(3,16) incl. through the std Cow / Vec conversions, shared Arc alone, shared Arc with an outside strong reference, with an outside strong + weak reference}, and per pool slot (3 slots) clone, read back (deref, as_ref), into_owned, drop, move-to-another-thread-read-and-drop, and for [E] into_owned and clone while the second element clone they make panics (fault injected, caught), plus pairwise ==/cmp/hash; for Cow<str> and for Cow<[E]> with a drop-, clone- and corruption-detecting element type, on the repository's cow.rs compiled into the harness; after every step contents equal the model and Arc strong counts equal the model; at the end every element instance is dropped exactly once and the tracking allocator (no block reuse, poison on free, recorded double/invalid frees) is back to its baseline; plus sequences through the public SharedString/Label/Key API; plus owned vectors of a zero-sized element type (capacity usize::MAX, the value reserved for Arc-backed values) x {drop, clone, into_owned}, each in its own process: rejected by a panic or handled correctly, never a dead process; distinct = distinct (allocations, frees, prune point) profiles",
+        rule: "every sequence of the stated depth (first operation = each of the 11 constructions) over: construct {borrowed, From<&T>, Default, a borrowed proper prefix of the static (same address, shorter; for str through std Cow::Borrowed), owned with (len,cap) in (0,0),(0,8),(3,3),(3,16) incl. through the std Cow / Vec conversions, shared Arc alone, shared Arc with an outside strong reference, with an outside strong + weak reference}, and per pool slot (3 slots) clone, read back (deref, as_ref), into_owned, drop, move-to-another-thread-read-and-drop, and for [E] into_owned and clone while the second element clone they make panics (fault injected, caught), plus pairwise ==/cmp/hash; for Cow<str> and for Cow<[E]> with a drop-, clone- and corruption-detecting element type, on the repository's cow.rs compiled into the harness; after every step contents equal the model and Arc strong counts equal the model; at the end every element instance is dropped exactly once and the tracking allocator (no block reuse, poison on free, recorded double/invalid frees) is back to its baseline; plus sequences through the public SharedString/Label/Key API; plus owned vectors of a zero-sized element type (capacity usize::MAX, the value reserved for Arc-backed values) x {drop, clone, into_owned}, each in its own process: rejected by a panic or handled correctly, never a dead process; distinct = distinct (allocations, frees, prune point) profiles; plus compile-time probes against the repository's cow.rs: 13 programs that keep a borrow for longer than the data (through from_borrowed, From<&T>, const_str, const_slice, std Cow, clone, deref, as_ref, lengthening the lifetime) must each be rejected by the compiler with a lifetime error, 10 controls of the same shape must compile",
         assumptions: &["cow.rs is self-contained, so compiling the same source file into the harness exercises the code the metrics crate compiles", "Send/Sync: only the two implications an owned slice needs (Cow<[E]>: Send => E: Send, Sync => E: Sync) are probed; full soundness of the bounds is a type-level claim outside this technique", "From<Cow<T>> for std::borrow::Cow<T> exists only for sized T and cannot be instantiated for str or slices"],
         parts,
         run,
